@@ -23,7 +23,10 @@ type S1 struct {
 type Sch struct {
 	Kind    string // leaf | slice | array | tuple | map | record | set | object | struct | union | xor | inter | du | lazy
 	Name    string // Go expression, for replays
-	Z       core.ZodSchema
+	Z       core.ZodSchema // nil when the member is not a core.ZodSchema (then Raw / RawParse)
+	Raw      any                        // what the container constructor is given when Z == nil
+	RawParse func(any) (any, error)     // the member's own Parse when Z == nil
+	Exotic   string                     // member kind other than a built-in schema type (members.go), "" = built-in
 	GoT     string // static Go type of its valid instances: str | int | mapSA | slAny | any ("" = mixed)
 	Members []*Sch
 	Mods    [3]bool // optional nilable nonOptional (of the container itself)
@@ -195,13 +198,16 @@ func names(ms []*Sch) string {
 func zs(ms []*Sch) []any {
 	out := make([]any, len(ms))
 	for i, m := range ms {
-		out[i] = m.Z
+		out[i] = m.Arg()
 	}
 	return out
 }
 
 // GenKind builds a composite of the given kind over random members of depth ≤ depth-1.
 func GenKind(r *hx.Rng, depth int, kind string) *Sch {
+	if kind == "wrap" {
+		return Wrap(r, Gen(r, depth, ""), false)
+	}
 	s := &Sch{Kind: kind, Rest: -1, KeyM: -1, ValM: -1, Catchall: -1}
 	d := depth - 1
 	switch kind {
@@ -211,7 +217,10 @@ func GenKind(r *hx.Rng, depth int, kind string) *Sch {
 		if want == "any" {
 			want = ""
 		}
-		e := Gen(r, d, want)
+		if forced != nil {
+			s.ElemT, want = "any", ""
+		}
+		e := GenMember(r, d, want, false)
 		s.Members = []*Sch{e}
 		s.Mods = pickMods(r)
 		var sz string
@@ -227,12 +236,15 @@ func GenKind(r *hx.Rng, depth int, kind string) *Sch {
 		s.Name = fmt.Sprintf("Slice[%s](%s)%s%s", s.ElemT, e.Name, sz, modsSuffix(s.Mods))
 	case "array", "tuple":
 		n := r.Intn(4)
+		if forced != nil && n == 0 {
+			n = 1
+		}
 		for range n {
-			s.Members = append(s.Members, Gen(r, d, ""))
+			s.Members = append(s.Members, GenMember(r, d, "", kind == "tuple"))
 		}
 		s.NItems = n
 		if r.Chance(40) {
-			s.Members = append(s.Members, Gen(r, d, ""))
+			s.Members = append(s.Members, GenMember(r, d, "", kind == "tuple"))
 			s.Rest = n
 		}
 		s.GoT = "slAny"
@@ -240,7 +252,7 @@ func GenKind(r *hx.Rng, depth int, kind string) *Sch {
 		if kind == "array" {
 			var rest []any
 			if s.Rest >= 0 {
-				rest = []any{s.Members[s.Rest].Z}
+				rest = []any{s.Members[s.Rest].Arg()}
 			}
 			z := types.Array(append([]any{zs(s.Members[:n])}, rest...)...)
 			switch {
@@ -281,14 +293,14 @@ func GenKind(r *hx.Rng, depth int, kind string) *Sch {
 			s.Name = fmt.Sprintf("TupleWithRest([%s], rest=%d)%s", names(s.Members[:n]), s.Rest, modsSuffix(s.Mods))
 		}
 	case "map":
-		k := Gen(r, 0, hx.Pick(r, []string{"str", "int"}))
-		v := Gen(r, d, "")
+		v := GenMember(r, d, "", false) // value first: it is the position GenOver fills
+		k := GenMember(r, 0, hx.Pick(r, []string{"str", "int"}), false)
 		s.Members = []*Sch{k, v}
 		s.KeyM, s.ValM = 0, 1
 		s.Mods = pickMods(r)
 		var sz string
 		s.Size, sz = pickSize(r)
-		z := applySize(types.Map(k.Z, v.Z), s.Size)
+		z := applySize(types.Map(k.Arg(), v.Arg()), s.Size)
 		switch {
 		case s.Mods[0]:
 			s.Z = z.Optional()
@@ -299,12 +311,17 @@ func GenKind(r *hx.Rng, depth int, kind string) *Sch {
 		}
 		s.Name = fmt.Sprintf("Map(%s, %s)%s%s", k.Name, v.Name, sz, modsSuffix(s.Mods))
 	case "record":
+		v := GenMember(r, d, "", false) // value first: it is the position GenOver fills
 		var k *Sch
 		if r.Chance(30) {
 			k = leaf("Enum(\"x\",\"y\")", gozod.Enum("x", "y"), "str", []any{"x", "y"}, []any{"z"}, nil)
 			s.EnumKeys = []string{"x", "y"}
 		} else {
-			k = Gen(r, 0, "str")
+			// key schemas that REWRITE the key (Trim, ToLowerCase, Transform) rename entries, two keys may
+			// collide and the survivor depends on map order: outside the model (notes/C02.md)
+			for k = GenMember(r, 0, "str", false); k.Exotic == "overwrite" || k.Exotic == "transform"; {
+				k = GenMember(r, 0, "str", false)
+			}
 			switch k.Name { // Enum exposes Options(), Literal exposes Values(): both make the keys exhaustive
 			case "Enum(\"x\",\"y\")":
 				s.EnumKeys = []string{"x", "y"}
@@ -312,7 +329,6 @@ func GenKind(r *hx.Rng, depth int, kind string) *Sch {
 				s.EnumKeys = []string{"a"}
 			}
 		}
-		v := Gen(r, d, "")
 		s.Members = []*Sch{k, v}
 		s.KeyM, s.ValM = 0, 1
 		s.GoT = "mapSA"
@@ -324,12 +340,12 @@ func GenKind(r *hx.Rng, depth int, kind string) *Sch {
 		switch {
 		case s.EnumKeys == nil && r.Chance(25):
 			s.Loose, ctor = true, "LooseRecord"
-			z = types.LooseRecord(k.Z, v.Z)
+			z = types.LooseRecord(k.Arg(), v.Arg())
 		case s.EnumKeys != nil && r.Chance(40):
 			s.Partial, ctor = true, "PartialRecord"
-			z = types.PartialRecord(k.Z, v.Z)
+			z = types.PartialRecord(k.Arg(), v.Arg())
 		default:
-			z = types.Record(k.Z, v.Z)
+			z = types.Record(k.Arg(), v.Arg())
 		}
 		z = applySize(z, s.Size)
 		switch {
@@ -343,12 +359,12 @@ func GenKind(r *hx.Rng, depth int, kind string) *Sch {
 		s.Name = fmt.Sprintf("%s(%s, %s)%s%s", ctor, k.Name, v.Name, sz, modsSuffix(s.Mods))
 	case "set":
 		s.ElemT = "str"
-		e := Gen(r, 0, "str")
+		e := GenMember(r, 0, "str", false)
 		s.Members = []*Sch{e}
 		s.Mods = pickMods(r)
 		var sz string
 		s.Size, sz = pickSize(r)
-		z := applySize(types.Set[string](e.Z), s.Size)
+		z := applySize(types.Set[string](e.Arg()), s.Size)
 		switch {
 		case s.Mods[0]:
 			s.Z = z.Optional()
@@ -365,7 +381,7 @@ func GenKind(r *hx.Rng, depth int, kind string) *Sch {
 		n := 1 + r.Intn(3)
 		shape := core.StructSchema{}
 		for i := range n {
-			m := Gen(r, d, "")
+			m := GenMember(r, d, "", true)
 			s.Fields = append(s.Fields, all[i])
 			s.Members = append(s.Members, m)
 			shape[all[i]] = m.Z
@@ -390,7 +406,7 @@ func GenKind(r *hx.Rng, depth int, kind string) *Sch {
 	case "union", "xor":
 		n := 1 + r.Intn(3)
 		for range n {
-			s.Members = append(s.Members, Gen(r, d, ""))
+			s.Members = append(s.Members, GenMember(r, d, "", true))
 		}
 		s.Mods = pickMods(r)
 		if kind == "union" {
@@ -418,7 +434,11 @@ func GenKind(r *hx.Rng, depth int, kind string) *Sch {
 		}
 	case "inter":
 		var l, rr *Sch
-		switch r.Intn(4) {
+		pick := r.Intn(4)
+		if forced != nil {
+			pick = 3
+		}
+		switch pick {
 		case 0: // two leaf constraints on the same type
 			l, rr = Leaves("str")[0], Leaves("str")[1]
 		case 1: // two strict objects over disjoint fields: the unrecognized-keys merge
@@ -430,7 +450,7 @@ func GenKind(r *hx.Rng, depth int, kind string) *Sch {
 			genObject(r, d, l, &objOpts{fields: []string{"a"}, mode: "passthrough"})
 			genObject(r, d, rr, &objOpts{fields: []string{"b", "c"}, mode: "strip"})
 		default:
-			l, rr = Gen(r, d, ""), Gen(r, d, "")
+			l, rr = GenMember(r, d, "", true), GenMember(r, d, "", true)
 		}
 		s.Members = []*Sch{l, rr}
 		s.GoT = "mapSA"
@@ -479,11 +499,11 @@ func GenKind(r *hx.Rng, depth int, kind string) *Sch {
 		}
 		s.Name = fmt.Sprintf("DiscriminatedUnion(\"t\", [%s])%s", names(s.Members), modsSuffix(s.Mods))
 	case "lazy":
-		t := Gen(r, d, "")
+		t := GenMember(r, d, "", false)
 		s.Members = []*Sch{t}
 		s.GoT = t.GoT
 		s.Mods = pickMods(r)
-		z := types.LazyAny(func() any { return t.Z })
+		z := types.LazyAny(func() any { return t.Arg() })
 		switch {
 		case s.Mods[0]:
 			s.Z = z.Optional()
@@ -508,7 +528,7 @@ func fieldNames(s *Sch) string {
 }
 
 func sliceZ[T any](e *Sch, s *Sch) core.ZodSchema {
-	z := applySize(types.Slice[T](e.Z), s.Size)
+	z := applySize(types.Slice[T](e.Arg()), s.Size)
 	switch {
 	case s.Mods[0]:
 		return z.Optional()
@@ -536,8 +556,11 @@ func genObject(r *hx.Rng, d int, s *Sch, o *objOpts) {
 		s.Members = append(s.Members, m)
 		shape["t"] = m.Z
 	}
+	if forced != nil && len(fields) == 0 {
+		fields = []string{"a"}
+	}
 	for _, f := range fields {
-		m := Gen(r, d, "")
+		m := GenMember(r, d, "", true)
 		s.Fields = append(s.Fields, f)
 		s.Members = append(s.Members, m)
 		shape[f] = m.Z
@@ -558,7 +581,7 @@ func genObject(r *hx.Rng, d int, s *Sch, o *objOpts) {
 		name += ".Passthrough()"
 	}
 	if o == nil && r.Chance(30) {
-		c := Gen(r, d, "")
+		c := GenMember(r, d, "", true)
 		s.Members = append(s.Members, c)
 		s.Catchall = len(s.Members) - 1
 		z = z.WithCatchall(c.Z)
@@ -681,7 +704,7 @@ func (s *Sch) NodeTok(base int) string {
 		sortStrings(dm)
 		return fmt.Sprintf("du %s %d %d%s %s", m, KeyID(s.Disc), len(dm), joinPrefixed(dm), ids(0, len(s.Members)))
 	case "lazy":
-		return fmt.Sprintf("lazy %s %s %d", m, b01(lazyDirect(s.Members[0].Z)), base)
+		return fmt.Sprintf("lazy %s %s %d", m, b01(lazyDirect(s.Members[0].Arg())), base)
 	}
 	panic("NodeTok " + s.Kind)
 }
